@@ -1,5 +1,6 @@
 import Cgm.Driver.OpsXform
 import Cgm.Model.Book
+import Cgm.Model.Book4
 /-!
 # Raw-token ops (`n.*`): the bookkeeping model driven with opaque component tokens
 (C16 swizzle table, C18 combination of per-component booleans, C19 combination of
@@ -95,6 +96,10 @@ def rawRel (kind : String) (l : List String) : String :=
 /-- predicates over per-element booleans (flat column-major) -/
 def rawPred (which kind : String) (l : List String) : String :=
   match which, kind with
+  | "finite", "v1" => match l with | [a] => showB (V1.isFinite tb ⟨a⟩) | _ => "bad-args"
+  | "finite", "p1" => match l with | [a] => showB (P1.isFinite tb ⟨a⟩) | _ => "bad-args"
+  | "finite", "p2" => match l with | [a, b] => showB (P2.isFinite tb ⟨a, b⟩) | _ => "bad-args"
+  | "finite", "p3" => match l with | [a, b, c] => showB (P3.isFinite tb ⟨a, b, c⟩) | _ => "bad-args"
   | "finite", "v2" => match v2s l with | some v => showB (V2.allP tb v) | none => "bad-args"
   | "finite", "v3" => match v3s l with | some v => showB (V3.allP tb v) | none => "bad-args"
   | "finite", "v4" => match v4s l with | some v => showB (V4.allP tb v) | none => "bad-args"
